@@ -6,7 +6,8 @@ LEVEL = "proof"
 AXIOM_ALLOW = ["functional_extensionality_dep", "FunctionalExtensionality.functional_extensionality_dep"]
 RULE = ("generated objects with the header tables placed early (so that many prefixes still open), each queried whole and at every "
         "prefix length (quick: every length of files <= 700 bytes for 12 files, 40 sampled lengths otherwise) through the slice "
-        "parser (answers as absolute ranges + decoded entries) and through the stream parser (answers as content); plus files with "
+        "parser (answers as absolute ranges + decoded entries) and through the stream parser (answers as content); files whose "
+        "PT_DYNAMIC segment is shorter than / elsewhere than / absent beside the .dynamic section, cut around that section; plus files with "
         "random bytes appended. Oracles: (metamorphic, implementation only) every answer on the prefix is an error or equals the "
         "answer on the whole file, open included; (tie) implementation == model. Non-trivial: a proper prefix that still opens.")
 ASSUMPTIONS = ["functional extensionality (Coq standard library axiom) in the proofs of C18"]
@@ -54,6 +55,31 @@ def gen(rng, tier):
             if n % 3 == 0:
                 _whole[ps] = ws
                 cases.append(ps)
+        # .dynamic reachable two ways: the PT_DYNAMIC segment made shorter / moved / removed, prefixes cutting the section
+        o0 = fileq.py_open("any", data)
+        hs = fileq.py_shdrs(o0, data) if o0 else None
+        ps_ = fileq.py_phdrs(o0, data) if o0 else None
+        dsec = [h for h in (hs or []) if h and h["sh_type"] == 6]
+        dseg = [j for j, p in enumerate(ps_ or []) if p and p["p_type"] == 2]
+        if dsec and dseg:
+            dsz = 8 if meta["cl"] == 32 else 16
+            h, j = dsec[0], dseg[0]
+            for var in ("short", "gone", "moved"):
+                if var == "short":
+                    d2 = elfgen.patch(data, meta, "phdr", "p_filesz", dsz * rng.choice([1, 2]), j)
+                elif var == "gone":
+                    d2 = elfgen.patch(data, meta, "phdr", "p_type", 0, j)
+                else:
+                    d2 = elfgen.patch(elfgen.patch(data, meta, "phdr", "p_offset", rng.choice([0, 16, 64]), j), meta, "phdr", "p_filesz", 2 * dsz, j)
+                q2 = ["ehdr", "dynamic", "common %s" % hx(b"absent"), "symtab", "dynsym"]
+                wb2 = "bytes %s %s | %s" % (fam, hx(d2), " | ".join(q2))
+                cases.append(wb2)
+                a, z = h["sh_offset"], h["sh_offset"] + h["sh_size"]
+                for n in sorted(set([a - 1, a, a + 1, a + dsz, z - dsz, z - 1, z, len(d2) - 1] + [rng.randrange(a, z + 1) for _ in range(4)])):
+                    if 0 <= n < len(d2):
+                        pb2 = "bytes %s %s | %s" % (fam, hx(d2[:n]), " | ".join(q2))
+                        _whole[pb2] = wb2
+                        cases.append(pb2)
         # appending bytes changes no answer: the original is the prefix of the extended file
         ext = data + rand_bytes(rng, rng.randrange(1, 64))
         eb_ = "bytes %s %s | %s" % (fam, hx(ext), " | ".join(qs))
